@@ -195,7 +195,7 @@ Fixpoint j12_run (pc : proxy_case) (st : jstate) (tb : trans_tab) (dead : list n
           match j_read (ji_data i) with
           | Some m =>
               if (jm_has_cl m && (negb (ji_tcp i) || single_message m))%bool then
-                let vias := j_flat is_via (jm_headers m) in
+                let vias := j_flat_via (jm_headers m) in
                 if j_is_response m then
                   match vias, j_cseq_method m with
                   | _ :: e2 :: _, Some meth =>
@@ -229,7 +229,7 @@ Fixpoint j12_run (pc : proxy_case) (st : jstate) (tb : trans_tab) (dead : list n
                               let relayed := flat_map (fun o => match j_read (snd o) with
                                                                 | Some om => flat_map (fun e => match j_via e with
                                                                                                | Some v => if match j_get (s2b "branch") (jv_params v) with Some b => beq b br | None => false end then [v] else []
-                                                                                               | None => [] end) (j_flat is_via (jm_headers om))
+                                                                                               | None => [] end) (j_flat_via (jm_headers om))
                                                                 | None => [] end) (msgs_of outs) in
                               match relayed with
                               | rv :: _ => if lower_is (jv_transport v1) "tcp" then next (((meth, br), (ji_conn i, rv)) :: tr_del (meth, br) tb) else next tb
